@@ -852,6 +852,37 @@ def run_pair(sh, np, nt, O, frclim, routes, i):
         if asym > 1e-3:
             sh.count("cell:nonsymmetric-AM-observed")
 
+    # ---- a free acceleration handed over with a REAL (or integer) dtype: the coupling is
+    # linear in As, A = TAM^-1 SAM As, so the answer follows from pyYeti's own (already
+    # judged) apparent masses; the imaginary part of the result must not be lost
+    if i % 4 == 2:
+        As_r = np.ascontiguousarray(ref.As.real) if i % 8 == 2 else \
+            np.round(4 * ref.As.real / max(np.abs(ref.As.real).max(), 1e-300)).astype(np.int64)
+        try:
+            with warnings.catch_warnings():
+                warnings.simplefilter("ignore")
+                with np.errstate(all="ignore"):
+                    res_r = frclim.ntfl(arg_of(fs_), arg_of(fl_), As_r.copy(), freq.copy())
+        except Exception as e:
+            sh.violation("exception:ntfl-real-As", case, {"exc": repr(e)[:400]}, tags)
+            res_r = None
+        if res_r is not None:
+            SAMp, TAMp = np.asarray(res.SAM), np.asarray(res.TAM)
+            LAMp = np.asarray(res.LAM)
+            wantA = np.zeros(ref.A.shape, complex)
+            wantF = np.zeros(ref.A.shape, complex)
+            for j in range(freq.size):
+                if ok[j]:
+                    wantA[:, j] = np.linalg.solve(TAMp[:, j, :], SAMp[:, j, :] @ As_r[:, j])
+                    wantF[:, j] = LAMp[:, j, :] @ wantA[:, j]
+            sh.count("cell:ntfl-As-dtype:" + As_r.dtype.kind)
+            scA = np.abs(wantA).max(axis=0) + 1e-300
+            scF = np.abs(wantF).max(axis=0) + 1e-300
+            condT = np.array([np.linalg.cond(TAMp[:, j, :]) if ok[j] else 1.0
+                              for j in range(freq.size)])
+            close2("ntfl-real-As-A", res_r.A, wantA, 1e-12 * condT * scA)
+            close2("ntfl-real-As-F", res_r.F, wantF, 1e-12 * condT * scF)
+
     # ---- calcAM directly: both boundary forms of the same model must agree, index order --
     for f, name in ((fs_, "src"), (fl_, "load")):
         if f["form"] in ("cb-pv", "cb-drm") and (i % 2 == 0):
@@ -943,6 +974,28 @@ def run_pair(sh, np, nt, O, frclim, routes, i):
                              {"exc": repr(e)[:400], "which": name, "form": f["form"]}, tags)
                 continue
             close3("calcAM-fs-vs-inv-accelerance", am_a, want, tol)
+            # the same with a FreqDirect the caller already used: the result it holds
+            # (the free acceleration, typically) must survive calcAM's unit-load solves
+            try:
+                with warnings.catch_warnings():
+                    warnings.simplefilter("ignore")
+                    with np.errstate(all="ignore"):
+                        fdx = routes.orig[2](args[0], args[1], args[2])
+                        Fx = core.rng(sh.seed, "C15", "fs-fd", i).standard_normal(
+                            (np.asarray(args[2]).shape[0], freq.size))
+                        s0 = fdx.fsolve(Fx, freq.copy())
+                        keep_ = {q: np.array(getattr(s0, q), copy=True) for q in "dva"}
+                        am_f = np.asarray(frclim.calcAM(args, freq.copy(), fdx))
+                sh.count("mon:calcAM-fs-earlier-result-unmutated")
+                bad_ = [q for q in "dva" if not np.array_equal(np.asarray(getattr(s0, q)),
+                                                               keep_[q], equal_nan=True)]
+                if bad_:
+                    sh.violation("calcAM-fs-earlier-result-unmutated", case,
+                                 {"changed": bad_, "which": name}, tags)
+                close3("calcAM-fs-vs-inv-accelerance", am_f, want, tol)
+            except Exception as e:
+                sh.violation("exception:calcAM-fs-freqdirect", case,
+                             {"exc": repr(e)[:300]}, tags)
             sh.count("mon:calcAM-fs-history")
             sh.count("cell:calcAM-fs-history:" + ("complex-modes" if not
                                                   solver.unc else "uncoupled"))
